@@ -100,6 +100,21 @@ def histories(run):
                 ops = [op("Acquire", "u2"), op("Release", "u2")] + ops
             hs.append({"id": "c11-%d" % (len(hs) + 1), "users": u2, "max": 1, "minc": 0, "lifeMs": 60000, "idleMs": 60000, "ops": ops})
     run.coverage["long_lived_histories"] = True
+    # idle time against the rounds of the health check: rounds that see the connection while it is still within its idle
+    # time, then rounds after it has been unused for longer (the connection's lifetime is far away)
+    for mx, minc, users in ((1, 0, u2), (2, 0, ["u1", "u2", "u3"])):
+        for early in (0, 1, 2, 3):
+            for first_sleep in (0, 20):
+                ops = [op("Acquire", "u1"), op("Use", "u1", "ok"), op("Release", "u1")]
+                if mx == 2:
+                    ops = [op("Acquire", "u2")] + ops
+                if first_sleep:
+                    ops.append(op("Sleep", k=first_sleep))
+                for _ in range(early):
+                    ops += [op("HC"), op("Sleep", k=25)]
+                # (rounds less than the idle time apart: each of them finds the connection unused for longer)
+                ops += [op("Sleep", k=40), op("HC")] * 4 + [op("Acquire", "u1"), op("Use", "u1", "ping"), op("Release", "u1")]
+                hs.append({"id": "c11-%d" % (len(hs) + 1), "users": users, "max": mx, "minc": minc, "lifeMs": 5000, "idleMs": 60, "ops": ops})
     # random longer histories with time passing
     u3 = ["u1", "u2", "u3"]
     for i in range(3000 if T else 400):
